@@ -29,6 +29,14 @@ def run(ctx: Context) -> None:
         from . import infra as _infra198
         _infra198.keyword_overrides_kept(ctx, 'R19.8', ['emsarray.conventions._base.Convention.make_poly_collection', 'emsarray.conventions._base.Convention.make_quiver'],
                                          ['array', 'clim', 'transform'], required=['transform'])
+        _AF = 'emsarray.conventions._base.Convention.animate_on_figure'
+        _infra198.refuses_only_when(ctx, 'R19.8', _AF, 'Coordinate variable must be one dimensional', [('len(coordinate.dims) == 1', False), ('len(coordinate.dims) != 1', True), ('coordinate.ndim == 1', False), ('coordinate.ndim != 1', True)],
+                                    "an animation runs along a one dimensional coordinate: any other is refused")
+        _infra198.refuses_only_when(ctx, 'R19.8', _AF, 'Scalar dimensions do not match', [('coordinate_dim in scalar.dims', False), ('coordinate_dim not in scalar.dims', True), ('coordinate.dims[0] in scalar.dims', False)],
+                                    "a scalar that does not have the animated dimension is refused instead of being drawn frame by frame along an axis it lacks")
+        _infra198.refuses_only_when(ctx, 'R19.8', _AF, 'Vector dimensions do not match', [('all((coordinate_dim in component.dims for component in vector))', False), ('all((coordinate.dims[0] in component.dims for component in vector))', False)],
+                                    "vector components that do not both have the animated dimension are refused")
+        _infra198.keyword_overrides_kept(ctx, 'R19.8', [_AF], [], required=['scalar', 'vector'])
         _infra198.none_default_discipline(ctx, 'R19.8', ['emsarray.conventions._base.Convention.make_poly_collection', 'emsarray.conventions._base.Convention.make_quiver', 'emsarray.conventions._base.Convention.animate_on_figure',
                                                          'emsarray.plot.animate_on_figure', 'emsarray.plot.plot_on_figure'])
     ctx.rule('R19.7', "the deprecated alias make_patch_collection is make_poly_collection: the data array and every extra argument are passed on", floor=2)
@@ -257,6 +265,8 @@ from ..variants import V  # noqa: E402
 _B = 'src/emsarray/conventions/_base.py'
 _P = 'src/emsarray/plot.py'
 VARIANTS = [
+    V('C19', 'animation-scalar-without-the-axis-accepted', 'src/emsarray/conventions/_base.py', "            if coordinate_dim not in scalar.dims:\n                raise ValueError(\"Scalar dimensions do not match coordinate axis to animate along\")\n", "", 'R19.8'),
+    V('C19', 'animation-scalar-never-handed-on', 'src/emsarray/conventions/_base.py', "            kwargs['scalar'] = scalar\n\n        if vector is not None:", "            pass\n\n        if vector is not None:", 'R19.8'),
     V('C19', 'default-transform-never-set', 'src/emsarray/conventions/_base.py', "        if 'transform' not in kwargs:\n            kwargs['transform'] = self.data_crs\n\n        return polygons_to_collection", "        return polygons_to_collection", 'R19.8'),
     V('C19', 'transform-override-replaced', 'src/emsarray/conventions/_base.py', "        if 'transform' not in kwargs:\n            kwargs['transform'] = self.data_crs\n\n        return polygons_to_collection", "        if 'transform' in kwargs:\n            kwargs['transform'] = self.data_crs\n\n        return polygons_to_collection", 'R19.8'),
     V('C19', 'animation-coordinate-discarded', 'src/emsarray/conventions/_base.py', "        if coordinate is None:\n            # Assume the user wants to plot along the time axis by default.", "        if coordinate is not None:\n            # Assume the user wants to plot along the time axis by default.", 'R19.8'),
